@@ -147,6 +147,14 @@ def rule_sib(ctx, f):
         ctx.check(bool(opened) or guard, "C19-SIB", "write_cmap#range-form@%d" % k, "a range entry is written in the string form `<lo> <hi> <text>` with no test of the "
                   "0xFF bound: the reader increments only the last byte of the text and stops at 0xFF, so a run that crosses a multiple of 256 loses its tail", t["span"],
                   detail="range entries use the array form (or test the last byte against 0xFF)")
+    # byte order marks: the writer emits none, so the reader's text decoder strips none (U+FEFF at the start of a text is a character)
+    ub = f.body("font::utf16be_to_string")
+    if ub is None:
+        ctx.lost("C19-SIB", "font::utf16be_to_string")
+    else:
+        strips = sorted({last_seg(F.callee_name(t)) for bb in f.with_closures(ub["id"]) for bi, t in F.calls(bb)} & {"strip_prefix", "starts_with", "trim_start_matches", "skip", "split_at"})
+        ctx.check(not strips, "C19-SIB", "utf16be_to_string#no-bom-strip", "the text decoder of the character-map reader removes a prefix (%s) that the writer never adds: a mapped text "
+                  "that starts with U+FEFF does not read back" % ", ".join(strips), ub["span"], detail="decodes every code unit it is given")
     # the reader accepts both range forms: a String arm and an Array arm for the third operand
     forms = set()
     for b in f.with_closures(r["id"]):
@@ -302,6 +310,33 @@ def rule_prov(ctx, f):
         dflt = ops.get("default")
         d0 = dflt is not None and dflt[0] == "const" and float(dflt[1].get("float", dflt[1].get("int", 1)) or 0) == 0.0
         ctx.check("first_char" in fs_first, "C19-PROV", "widths#simple:first_char", "the table of a simple font does not start at the font's /FirstChar (fields read: %s)" % sorted(fs_first), b["span"], detail="first_char <- TFont.first_char")
+        # ... the whole array, unmodified: nothing cuts, pads or reorders the copy between /Widths and the table
+        muts = []
+        roots = set()
+        st0 = [lv] if lv is not None else []
+        seenl = set()
+        while st0:
+            x0 = st0.pop()
+            if x0 in seenl:
+                continue
+            seenl.add(x0)
+            for d0 in fl.defs.get(x0, []):
+                if d0[0] == "assign" and d0[2][0] == "use" and F.op_local(d0[2][1]) is not None:
+                    st0.append(F.op_local(d0[2][1]))
+                if d0[0] == "assign" and d0[2][0] in ("ref", "rawptr"):
+                    st0.append(d0[2][1][0])
+        for bi2, t2 in F.calls(b):
+            if last_seg(F.callee_name(t2)) in ("truncate", "resize", "pop", "remove", "drain", "retain", "clear", "swap_remove", "dedup", "split_off", "sort", "reverse", "push", "insert", "extend") \
+                    and t2["args"]:
+                l2 = F.op_local(t2["args"][0])
+                base2 = l2
+                for d2 in fl.defs.get(l2, []) if l2 is not None else []:
+                    if d2[0] == "assign" and d2[2][0] in ("ref", "rawptr"):
+                        base2 = d2[2][1][0]
+                if base2 in seenl and "Vec<f32>" in (F.callee_name(t2) + t2.get("callee_full", "") + t2["arg_tys"][0]["s"]):
+                    muts.append(last_seg(F.callee_name(t2)))
+        ctx.check(not muts, "C19-PROV", "widths#simple:values-unmodified", "the width table of a simple font is the /Widths array after %s: entries are cut off or moved, so a code inside "
+                  "FirstChar..=LastChar reports another width than the array assigns" % ", ".join(sorted(set(muts))), b["span"], detail="values = widths.clone(), untouched")
         ctx.check("widths" in fs_vals, "C19-PROV", "widths#simple:values", "the table of a simple font is not the font's /Widths (fields read: %s)" % sorted(fs_vals), b["span"], detail="values <- TFont.widths")
         ctx.check(d0, "C19-PROV", "widths#simple:default", "the default width of a simple font is not 0", b["span"], detail="default: 0.0")
     # composite fonts
